@@ -207,6 +207,12 @@ func (e *Env) Unprotect(p peer.ID, tag string) bool { e.Unprotects[string(p)+"/"
 
 func extNode() datamodel.Node { return kit.ExtNode() }
 
+// Exported accessors for harness groups that compose both sides.
+func (e *Env) Accept(p peer.ID, id graphsync.RequestID) { e.ReqVerdict[key{p, id}] = HookAccept }
+func (e *Env) CompletedOf(p peer.ID, id graphsync.RequestID) []graphsync.ResponseStatusCode {
+	return e.Completed[key{p, id}]
+}
+
 func (e *Env) NewRequest(p peer.ID, r int, exts ...graphsync.ExtensionData) {
 	root := kit.Link(0).(interface{ String() string })
 	_ = root
